@@ -206,7 +206,21 @@ class C14(Prop):
              "auto_pong": True, "sends": [{"when": ["event", "ping", None], "do": [["send_text", "at-ping"]]}],
              "close_at": None, "fault": None, "seg": "whole", "deflate": False, "cmask": 0},
         ]
+        def around_full_reads():
+            # Pings before, between and behind messages of 64 KiB and more, delivered in as few reads as possible: reads
+            # that fill the client's 64 KiB buffer exactly, and the reads right behind them - with automatic Pongs on and off
+            for auto_pong in (True, False):
+                for size in (65536 - 4 - 3, 65536 - 4, 65536, 70000, 131072 + 20, 200000):
+                    for kind in ("binary", "text"):
+                        for deflate in (False, True):
+                            big = {"kind": kind, "payload": ["rand", size, size] if kind == "binary" else ["ascii", size, size],
+                                   "forms": [0]}
+                            yield {"msgs": [ping("61"), big, ping("62"), {"kind": "text", "payload": ["str", "t"], "forms": [0]},
+                                            ping(""), big, ping("63" * 100)],
+                                   "auto_pong": auto_pong, "sends": [], "close_at": None, "fault": None, "seg": "whole",
+                                   "deflate": deflate, "cmask": 0}
         return [Enumeration("pong_before_reaction_all_single_preemptions", cases, exhaustive=True),
+                Enumeration("pings_around_reads_that_fill_the_receive_buffer", around_full_reads, exhaustive=True),
                 after_every_prelude(battery), with_noise(battery), with_companion(battery), with_debug_log(battery),
                 Enumeration("pings_followed_by_every_kind_of_violating_frame",
                             lambda: (dict(b, tail_violation={"class": c, "a": a, "b": 1, "wide": False}, seg=seg, deflate=d)
